@@ -14,7 +14,7 @@ CFGS = [("native", {}), ("no128", {}), ("portable", {})]
 def run(R):
     thorough = R.tier == "thorough"
     R.build_all(sorted({v for v, _ in CFGS}))
-    nh = 120 if thorough else 12
+    nh = 300 if thorough else 12
     merged, order = {}, []
     for i, (variant, env) in enumerate(CFGS):
         exe = R.cc("ed25519_driver", ["ed25519_driver.c"], variant)
